@@ -18,7 +18,15 @@ for d in sorted(glob.glob(os.path.join(root, "seeded", "*"))):
     def clip(s, n):
         s = (s or "").replace("|", "\\|").replace("\n", " ")
         return s if len(s) <= n else s[:n] + "…"
-    caught = "**caught**" if "exit=1" in res else ("MISSED" if "exit=0" in res else "?")
+    first = re.search(r"exit=(\d)", res)
+    if first and first.group(1) == "1":
+        caught = "**caught**"
+    elif "exit=1" in res:
+        caught = "not by the owning check, **caught by others**"
+    elif first:
+        caught = "not caught (see note)"
+    else:
+        caught = "?"
     print("| %s | %s | %s | %s | %s: `%s` |" % (name, m.get("breaks_property"), clip(m.get("summary"), 260), clip(m.get("needs_to_manifest"), 200), caught, clip(res, 230)))
 print("\n#### Hand-written mutations from the 'Sensitivity' lists of §5 (not required to pass the suite)\n")
 print("| Mutation | Result of the owning check (quick tier) |")
